@@ -339,13 +339,51 @@ fn scenarios(tier: Tier) -> Vec<Vec<Vec<Op>>> {
         vec![vec![SetA], vec![SetB], vec![Use]],
         vec![vec![Use, SetA, Use], vec![SetB]],
     ];
+    v.push(vec![vec![SetA, Use], vec![SetB, Use], vec![Use]]);
+    v.push(vec![vec![Use, SetA], vec![Use, SetB], vec![SetB, Use]]);
+    v.push(vec![vec![SetA, SetB, Use], vec![SetB, SetA, Use]]);
     if tier == Tier::Thorough {
-        v.push(vec![vec![SetA, Use], vec![SetB, Use], vec![Use]]);
-        v.push(vec![vec![Use, SetA], vec![Use, SetB], vec![SetB, Use]]);
-        v.push(vec![vec![SetA, SetB, Use], vec![SetB, SetA, Use]]);
+        // ALL thread programs within the bound: two threads of 1..=3 operations each (unordered pairs of
+        // sequences), and three threads of 1..=2 operations with at most 5 operations in total
+        let ops = [SetA, SetB, Use];
+        let mut seqs: Vec<Vec<Op>> = vec![];
+        for a in ops {
+            seqs.push(vec![a]);
+            for b in ops {
+                seqs.push(vec![a, b]);
+                for c in ops {
+                    seqs.push(vec![a, b, c]);
+                }
+            }
+        }
+        let named = v.clone();
+        for (i, x) in seqs.iter().enumerate() {
+            for y in &seqs[i..] {
+                let p = vec![x.clone(), y.clone()];
+                if !named.contains(&p) {
+                    v.push(p);
+                }
+            }
+        }
+        let short: Vec<&Vec<Op>> = seqs.iter().filter(|s| s.len() <= 2).collect();
+        for (i, x) in short.iter().enumerate() {
+            for (j, y) in short.iter().enumerate().skip(i) {
+                for z in short.iter().skip(j) {
+                    if x.len() + y.len() + z.len() <= 5 {
+                        let p = vec![(*x).clone(), (*y).clone(), (*z).clone()];
+                        if !named.contains(&p) {
+                            v.push(p);
+                        }
+                    }
+                }
+            }
+        }
     }
     v
 }
+
+/// The hand-picked programs come first; only they are also run as fresh-process interleavings.
+const NAMED_PROGRAMS: usize = 10;
 
 /// A setter that reports "already set" tells which values it did NOT install; when the program sets the
 /// same value in two places, the value in force may be that very value, installed by the other one.
@@ -757,7 +795,7 @@ fn main() {
     // (2b) every operation-level interleaving of every thread program, each in a fresh process on the
     // uninstrumented primitives (operations as atomic units): sound whatever primitive the setting uses
     for (si, s) in settings().iter().enumerate() {
-        for (pi, prog) in scenarios(tier).iter().enumerate() {
+        for (pi, prog) in scenarios(tier).iter().enumerate().take(NAMED_PROGRAMS) {
             for sched in merges(&prog.iter().map(|t| t.len()).collect::<Vec<_>>()) {
                 let arg = sched.iter().map(|t| t.to_string()).collect::<Vec<_>>().join(",");
                 let out = std::process::Command::new(&exe).args(["seq-child", &si.to_string(), &pi.to_string(), tier.name(), &arg]).output().unwrap_or_else(|e| ev::machinery(&format!("seq child: {e}")));
